@@ -96,6 +96,71 @@ def run(ctx):
     return core.finish(ctx)
 
 
+class _HandlerOnAllPaths(nfa.Spec):
+    """an accepted message is handled when its payload runs: no path through the payload skips the handler"""
+    init = ("s0",)
+
+    def step(self, st, label):
+        ev = label.split("@")[0]
+        if ev == "call:handle":
+            return ("called",)
+        if ev == "done:handle":
+            return ("done",)
+        if ev == "ret" and st[0] == "s0":
+            return nfa.Err("a path through the message payload returns without running the handler (an accepted message would be dropped)")
+        return st
+
+
+def check_payloads(ctx, fx, cfg, RULE):
+    # R01.8 each payload closure runs the handler of its own message exactly once on the loop's (actor, ctx)
+    n_pl = 0
+    for key, ent in fx.dyn.items():
+        if not (key.startswith("dyn core::ops::function::FnOnce<(&mut A, &mut context::Context<A>)>") and "[Output=core::pin::Pin<alloc::boxed::Box<dyn core::future::future::Future + [Output=()]" in key):
+            continue
+        for s in ent["sources"]:
+            pc = fx.fn(s.get("def") or "")
+            if pc is None:
+                continue
+            n_pl += 1
+            fam = [pc] + fx.descendants(pc["def"])
+            hs = []
+            for g in fam:
+                gb = ctx.body(fx, g)
+                for bi, t in gb.normal_calls():
+                    if t.get("trait") == loops.T_H and (t.get("callee") or "").endswith("::handle"):
+                        hs.append((g, gb, t))
+            inst = "payload:%s@%s" % (pc["def"], cfg)
+            is_ping = "::ping::" in pc["def"]
+            if is_ping:
+                ctx.require(not hs, RULE, inst, "ping must not run a handler", fn=pc["def"], site=pc["loc"])
+                continue
+            if not ctx.require(len(hs) == 1, RULE, inst, "a message payload must invoke Handler::handle exactly once, found %d sites" % len(hs), fn=pc["def"], site=pc["loc"]):
+                continue
+            g, gb, t = hs[0]
+            # in the payload closure itself: actor = arg 2, ctx = arg 3; in a nested coroutine they arrive as captures
+            ra = roots(gb, t["args"][0])
+            rc = roots(gb, t["args"][1])
+            rm = roots(gb, t["args"][2])
+            if g["def"] == pc["def"]:
+                ok = all(r.kind == "arg" and r.site == 2 for r in ra) and all(r.kind == "arg" and r.site == 3 for r in rc) and all(r.kind == "upvar" for r in rm)
+            else:
+                ok = all(r.kind == "upvar" for r in ra | rc | rm) and len({r.site for r in ra | rc | rm}) == 3
+            ctx.require(ok, RULE, inst, "the payload must run the handler on the loop's actor and context with its own message: actor %s ctx %s msg %s" % (sorted(map(str, ra)), sorted(map(str, rc)), sorted(map(str, rm))), fn=g["def"], site=t["l"])
+            HA = nfa.Alphabet(calls=[("handle", lambda x: x.get("trait") == loops.T_H and (x.get("callee") or "").endswith("::handle"))])
+            hn = nfa.build(gb, HA)
+            hv, hps = nfa.check(hn, _HandlerOnAllPaths())
+            ctx.count_nfa(hn.stats(), hps)
+            for v in hv:
+                ctx.viol(RULE, inst + ":handler-on-all-paths", v["msg"], fn=g["def"], site=t["l"], trace=v["trace"])
+            if not hv:
+                ctx.ok(RULE, inst + ":handler-on-all-paths", t["l"], None)
+            # the handler future is the payload's future: returned boxed or awaited inside it
+            fsk = sinks(gb, t["dest"][0])
+            ok2 = any(x["k"] == "ret" for x in fsk) or any(x["k"] == "call" and (x["t"].get("callee") or "").endswith("Future::poll") for x in fsk)
+            ctx.require(ok2, RULE, inst + ":drives-handler", "the handler future is neither returned as the payload's future nor awaited in it", fn=g["def"], site=t["l"])
+    ctx.floor(RULE, "payload closures (%s)" % cfg, n_pl, 7)
+
+
 def check_single_queue(ctx, fx, cfg, r1="R01.1", r2="R01.2"):
     """one mpsc queue per actor, created in the two constructors; the waiting, forcing and receive closures hold ends of
     that one channel (shared by the properties whose ordering argument rests on the single FIFO)"""
@@ -317,45 +382,7 @@ def check_cfg(ctx, fx, cfg):
                 ok = not wv
             ctx.require(ok, "R01.9", inst, "the future of a waiting submission must be awaited in place on every path, or returned to the caller — not spawned, stored or dropped (stray uses: %s)" % stray, fn=f["def"], site=t["l"])
     ctx.floor("R01.9", "waiting-submission futures (%s)" % cfg, n_wf, 12)
-    # R01.8 each payload closure runs the handler of its own message exactly once on the loop's (actor, ctx)
-    n_pl = 0
-    for key, ent in fx.dyn.items():
-        if not (key.startswith("dyn core::ops::function::FnOnce<(&mut A, &mut context::Context<A>)>") and "[Output=core::pin::Pin<alloc::boxed::Box<dyn core::future::future::Future + [Output=()]" in key):
-            continue
-        for s in ent["sources"]:
-            pc = fx.fn(s.get("def") or "")
-            if pc is None:
-                continue
-            n_pl += 1
-            fam = [pc] + fx.descendants(pc["def"])
-            hs = []
-            for g in fam:
-                gb = ctx.body(fx, g)
-                for bi, t in gb.normal_calls():
-                    if t.get("trait") == loops.T_H and (t.get("callee") or "").endswith("::handle"):
-                        hs.append((g, gb, t))
-            inst = "payload:%s@%s" % (pc["def"], cfg)
-            is_ping = "::ping::" in pc["def"]
-            if is_ping:
-                ctx.require(not hs, "R01.8", inst, "ping must not run a handler", fn=pc["def"], site=pc["loc"])
-                continue
-            if not ctx.require(len(hs) == 1, "R01.8", inst, "a message payload must invoke Handler::handle exactly once, found %d sites" % len(hs), fn=pc["def"], site=pc["loc"]):
-                continue
-            g, gb, t = hs[0]
-            # in the payload closure itself: actor = arg 2, ctx = arg 3; in a nested coroutine they arrive as captures
-            ra = roots(gb, t["args"][0])
-            rc = roots(gb, t["args"][1])
-            rm = roots(gb, t["args"][2])
-            if g["def"] == pc["def"]:
-                ok = all(r.kind == "arg" and r.site == 2 for r in ra) and all(r.kind == "arg" and r.site == 3 for r in rc) and all(r.kind == "upvar" for r in rm)
-            else:
-                ok = all(r.kind == "upvar" for r in ra | rc | rm) and len({r.site for r in ra | rc | rm}) == 3
-            ctx.require(ok, "R01.8", inst, "the payload must run the handler on the loop's actor and context with its own message: actor %s ctx %s msg %s" % (sorted(map(str, ra)), sorted(map(str, rc)), sorted(map(str, rm))), fn=g["def"], site=t["l"])
-            # the handler future is the payload's future: returned boxed or awaited inside it
-            fsk = sinks(gb, t["dest"][0])
-            ok2 = any(x["k"] == "ret" for x in fsk) or any(x["k"] == "call" and (x["t"].get("callee") or "").endswith("Future::poll") for x in fsk)
-            ctx.require(ok2, "R01.8", inst + ":drives-handler", "the handler future is neither returned as the payload's future nor awaited in it", fn=g["def"], site=t["l"])
-    ctx.floor("R01.8", "payload closures (%s)" % cfg, n_pl, 7)
+    check_payloads(ctx, fx, cfg, "R01.8")
     # R01.7 unsafe
     u = fx.d["unsafe"]
     ctx.require(u["lint_level"] == "Forbid" and u["count"] == 0, "R01.7", "unsafe-free@" + cfg, "unsafe code present or not forbidden: %s" % u, site="Cargo.toml [lints.rust]", detail=u)
